@@ -68,6 +68,23 @@ theorem component_bounds_within_control_bounds {o : CurveOracle} (ho : o.Lawful)
 it; the exact extrema box obeys them too, by `cubic_in_hull`/`quadratic_in_hull`). -/
 theorem oracle_laws_hold : hullOracle.Lawful := hullOracle_lawful
 
+/-! Non-vacuity: a concrete contour (line + cubic + quadratic with an implied point, a dyadic
+coordinate) that draws without error, a point on its outline (middle of the first line), and its
+boxes; a component with a flip whose bounds and control bounds exist. -/
+example : drawErr Ex.closed = none := by decide +kernel
+example : OnPath none (prims Ex.closed) ⟨50, 0⟩ := by
+  have h : prims Ex.closed = [.moveTo ⟨0, 0⟩, .lineTo ⟨100, 0⟩, .curveTo ⟨150, 1 / 2⟩ ⟨150, 80⟩ ⟨100, 100⟩,
+     .qCurveTo ⟨60, 140⟩ ⟨40, 140⟩, .qCurveTo ⟨20, 140⟩ ⟨0, 100⟩, .closePath] := by decide +kernel
+  rw [h]
+  right; left
+  exact ⟨1 / 2, by norm_num, by norm_num, by simp [Prim.at, Pt.lerp, lerp]; norm_num⟩
+example : freshCpb Ex.closed = some ⟨0, 0, 150, 140⟩ := by decide +kernel
+example : freshBnd hullOracle Ex.closed = some ⟨0, 0, 150, 140⟩ := by decide +kernel
+example : Component.bounds hullOracle Ex.world ⟨"base", ⟨-1, 0, 0, 1, 40, -7 / 2⟩⟩ = .ok (some ⟨-110, -7 / 2, 40, 273 / 2⟩) := by
+  decide +kernel
+example : Component.cpb Ex.world ⟨"base", ⟨-1, 0, 0, 1, 40, -7 / 2⟩⟩ = .ok (some ⟨-110, -7 / 2, 40, 273 / 2⟩) := by
+  decide +kernel
+
 /-! ## 2. Moving by (dx, dy) translates coordinates, bounds, control bounds; area unchanged -/
 
 /-- `Contour.move` adds `(dx, dy)` to every point and changes nothing else about the points. -/
@@ -136,6 +153,13 @@ theorem glyph_move_translates {o : CurveOracle} (ho : o.Lawful) (w : World) (g :
   · rw [Glyph.getBounds_move dx dy ho]
   · rw [Glyph.getCpb_move dx dy]
 
+/-! Non-vacuity: the example contour has a non-zero area, which a non-trivial dyadic move keeps
+while the boxes shift. -/
+example : freshArea Ex.closed = 184555 / 12 := by decide +kernel
+example : freshArea (Ex.closed.map (·.move (3 / 2) (-4))) = 184555 / 12 := by decide +kernel
+example : freshCpb (Ex.closed.map (·.move (3 / 2) (-4))) = some ⟨3 / 2, -4, 303 / 2, 136⟩ := by decide +kernel
+example : ((Ex.base.move 1 1).getBounds hullOracle Ex.world).2 = .ok (some ⟨1, 1, 151, 141⟩) := by decide +kernel
+
 /-! ## 3. Cached values always equal an independent (fresh) computation -/
 
 /-- In every state reachable from an empty layer by any sequence of the modelled operations
@@ -154,6 +178,24 @@ theorem reads_answer_the_fresh_computation {o : CurveOracle} (c : Contour) (h : 
     (c.getCpb caching).2 = answer (drawErr c.points) (freshCpb c.points) ∧
     (c.getArea caching).2 = answer (drawErr c.points) (freshArea c.points) :=
   ⟨(h.getBounds caching).2.2, (h.getCpb caching).2.2, (h.getArea caching).2.2⟩
+
+/-! Non-vacuity: a history that reads, moves (patching filled caches), reverses, rotates and sets
+margins consists of fresh operations; it runs without error in the model and ends in a state with
+filled caches. -/
+example : ∀ op ∈ Ex.history, op.fresh := by
+  intro op h
+  simp only [Ex.history, List.mem_cons, List.not_mem_nil, or_false] at h
+  rcases h with rfl | rfl | rfl | rfl | rfl | rfl | rfl | rfl | rfl | rfl | rfl | rfl | rfl | rfl <;>
+    first
+      | trivial
+      | (intro c hc
+         simp only [Ex.base, Ex.composite, List.mem_cons, List.not_mem_nil, or_false] at hc
+         rcases hc with rfl | rfl <;> exact ⟨rfl, rfl, rfl⟩)
+example : ((run hullOracle {} Ex.history).2.map (fun r => match r with | .err _ => false | _ => true)).all id = true := by
+  decide +kernel
+example : ((run hullOracle {} Ex.history).1.glyphs.any
+    (fun ng => ng.2.contours.any (fun c => c.bnd.isSome || c.cpb.isSome))) = true := by
+  decide +kernel
 
 /-! ## 4. Reversing a contour -/
 
@@ -178,6 +220,12 @@ theorem reverse_twice_restores (pts : List Point) (h : ReversibleShape pts) :
 theorem reverse_keeps_first_point (p0 : Point) (rest : List Point) (h : p0.seg ≠ some .move) :
     ((reversePoints (p0 :: rest)).map Point.core).head? = some p0.core :=
   reversePoints_head_closed p0 rest h
+
+/-! Non-vacuity: both shapes occur; the reversed example differs from the original. -/
+example : ReversibleShape Ex.closed := by decide
+example : ReversibleShape Ex.opened := by decide
+example : reversePoints Ex.closed ≠ Ex.closed := by decide +kernel
+example : reversePoints Ex.opened ≠ Ex.opened := by decide +kernel
 
 /-! ## 5. Changing the start point -/
 
@@ -212,6 +260,15 @@ theorem setStartPoint_rejects (c : Contour) (i : Int) (h2 : 2 ≤ onCurveCount c
     simp [Contour.setStartPoint, h2', hopen, h]
   · intro k p hk hp hs
     simp [Contour.setStartPoint, h2', hopen, hk, hp, hs]
+
+/-! Non-vacuity: a rotation that does something (negative index), one that is a no-op (open contour),
+and both rejections. -/
+example : ({ points := Ex.closed } : Contour).setStartPoint (-4) =
+    .ok { points := Ex.closed.drop 4 ++ Ex.closed.take 4 } := by decide +kernel
+example : noMove Ex.closed = true := by decide
+example : ({ points := Ex.opened } : Contour).setStartPoint 1 = .ok { points := Ex.opened } := by decide +kernel
+example : ({ points := Ex.closed } : Contour).setStartPoint 2 = .error .assertion := by decide +kernel
+example : ({ points := Ex.closed } : Contour).setStartPoint 8 = .error .index := by decide +kernel
 
 /-! ## 6. The four margin setters
 
@@ -295,5 +352,16 @@ theorem margins_of_empty_outline (g : Glyph) (v : Rat) :
     topMarginOf g none = none ∧ setLeftMargin g none v = g ∧ setRightMargin g none v = g ∧
     setBottomMargin g none v = g ∧ setTopMargin g none v = g :=
   ⟨rfl, rfl, rfl, rfl, rfl, rfl, rfl, rfl⟩
+
+/-! Non-vacuity: the example glyphs have bounds (hypothesis `hb`), with a vertical origin (`base`) and
+without (`composite`, which has a flipped component), and the setters change something. -/
+example : (Ex.base.getBounds hullOracle Ex.world).2 = .ok (some ⟨0, 0, 150, 140⟩) := by decide +kernel
+example : (Ex.composite.getBounds hullOracle Ex.world).2 = .ok (some ⟨-110, -7 / 2, 110, 273 / 2⟩) := by decide +kernel
+example : bottomMarginOf (Ex.base.getBounds hullOracle Ex.world).1 (some ⟨0, 0, 150, 140⟩) = some 50 := by
+  decide +kernel
+example : topMarginOf (Ex.composite.getBounds hullOracle Ex.world).1 (some ⟨-110, -7 / 2, 110, 273 / 2⟩) = some (-273 / 2) := by
+  decide +kernel
+example : (setLeftMargin (Ex.composite.getBounds hullOracle Ex.world).1 (some ⟨-110, -7 / 2, 110, 273 / 2⟩) 25).width = 435 := by
+  decide +kernel
 
 end DefconModel.Props.C17
